@@ -315,6 +315,23 @@ def r08_4(rep, M, rid):
     rets = [r for r in ast.walk(fn2) if isinstance(r, ast.Return)]
     shape = any(isinstance(r.value, ast.Constant) and r.value.value is True for r in rets) and \
         any(isinstance(r.value, ast.Constant) and r.value.value is False for r in rets)
+    # polarity: True is returned when the variables of a letter are NOT empty
+    pol_ok = None
+    for r in rets:
+        if isinstance(r.value, ast.Constant) and r.value.value is True:
+            for t, pol in fl2.cfg.branch_conditions(fl2.node_of(r)):
+                tt = getattr(t, "test", None)
+                if isinstance(tt, ast.Compare) and isinstance(tt.left, ast.Call) and isinstance(tt.left.func, ast.Name) and tt.left.func.id == "len" \
+                        and isinstance(tt.comparators[0], ast.Constant) and tt.comparators[0].value == 0:
+                    pol_ok = (isinstance(tt.ops[0], ast.NotEq) and pol) or (isinstance(tt.ops[0], ast.Eq) and not pol)
+                elif isinstance(tt, ast.Name):
+                    pol_ok = bool(pol)
+                elif isinstance(tt, ast.UnaryOp) and isinstance(tt.op, ast.Not) and isinstance(tt.operand, ast.Name):
+                    pol_ok = not pol
+    if pol_ok is False:
+        rep.violation(rid, "get_has_free_wyckoff_parameters: polarity", "True is returned for a letter whose tabulated variables are *empty*: the flag is the negation of "
+                      "'some occupied set carries a parameter'", M.where(f2))
+        return
     if perm and var and shape:
         rep.ok(rid, "free-parameter flag: True iff a (permuted) occupied letter has tabulated variables")
     else:
@@ -448,6 +465,7 @@ def run(rep, ctx):
     rep.rule("R08.4", "parameters are wrapped into [0,1), stored only for tabulated variables, accepted only after full verification; flag reads the same table")
     TO.expr_matrices(rep, T, "R08.1")
     with rep.guard("R08.2"):
+        search_norm_axis(rep, M, "R08.2")
         variables_left_operand(rep, M, "R08.2")
         r08_2(rep, M, T, "R08.2")
     TO.orbit_closure(rep, T, "R08.3")
@@ -543,3 +561,19 @@ def variables_left_operand(rep, M, rid):
                           "set are not regenerated and the parameter search fails with ValueError", M.where(fq, c))
     if n < 2:
         raise AnalysisError(f"_get_wyckoff_sets: products with the variable vector found at {n} site(s); plausibility test and batched evaluation expected")
+
+
+def search_norm_axis(rep, M, rid):
+    """_search_periodic_positions: the distance of each candidate is the norm of its displacement row (axis 1); the argmin over these is a candidate number"""
+    fq = SA + "._search_periodic_positions"
+    fn = M.func(fq)
+    norms = [c for c in ast.walk(fn) if isinstance(c, ast.Call) and (M.ext_name(fq, c.func) or "") == "numpy.linalg.norm"]
+    if not norms:
+        raise AnalysisError("_search_periodic_positions: norm of the displacements not found")
+    for c in norms:
+        ax = next((k.value for k in c.keywords if k.arg == "axis"), None)
+        if isinstance(ax, ast.Constant) and ax.value in (1, -1):
+            rep.ok(rid, f"_search_periodic_positions: `{norm(c)[:50]}` is a per-candidate distance")
+        else:
+            rep.violation(rid, f"_search_periodic_positions: `{norm(c)[:50]}`", "the norm is not taken per candidate (axis 1): the minimum is searched among three column norms, "
+                          "so the index returned is not the matched atom and parameters are accepted or rejected at random", M.where(fq, c))
